@@ -86,8 +86,8 @@ PROPS["C08"] = {
 }
 PROPS["C09"] = {
     "parts": [_BATCH, {"family": "batchstress", "admits": "BatchStressCorr.spec_C09_stress", "model_obs": None, "timeout": 600}],
-    "level_text": "Theorems over ALL schedules: C09_stop_skips - once the stop flag is up, an item whose task has not passed its stop-flag check is never executed (its events stay empty for every continuation of every schedule), so only tasks already received by the other workers can still run; C09_stop_flag_permanent; C09_no_fake_success - for every mode and schedule the slot of an item without events is an error slot. Correspondence: first failing item at every position for n<=8 (quick) / 16, c in 0..4, both modes, failing item released first / last / randomly; spec_C09 walks the implementation's trace (after the final failure only calls of items in flight at the last quiescent point may appear). Second part, free-running (ungated) stop-mode batches of 200 000 (quick) / 400 000 items with two workers: item 0 is held in flight until 20..60 ms after one of items 1..3 failed while the queue takes several times longer to drain; judged by 'no executed item (at most one) is larger than a skipped item AND larger than the failing item', plus no fake success, own result per executed item, one post with n results.",
-    "level_note": _TB + " For two workers and exactly one failing item the bound of the free-running part holds for every schedule, by an argument on paper from C09_stop_flag_permanent and C07_one_worker_per_item (DESIGN.md 14.5), not machine-checked. Which interleavings the free runs reach is up to the Go scheduler.",
+    "level_text": "Theorems over ALL schedules: C09_stop_skips - once the stop flag is up, an item whose task has not passed its stop-flag check is never executed (its events stay empty for every continuation of every schedule), so only tasks already received by the other workers can still run; C09_stop_flag_permanent; C09_no_fake_success and C09_never_run_is_error - for every mode and schedule the slot of an item without events is an error slot; C09_two_workers_prefix (see the note). Correspondence: first failing item at every position for n<=8 (quick) / 16, c in 0..4, both modes, failing item released first / last / randomly; spec_C09 walks the implementation's trace (after the final failure only calls of items in flight at the last quiescent point may appear). Second part, free-running (ungated) stop-mode batches of 200 000 (quick) / 400 000 items with two workers: item 0 is held in flight until 20..60 ms after one of items 1..3 failed while the queue takes several times longer to drain; judged by 'no executed item (at most one) is larger than a skipped item AND larger than the failing item', plus no fake success, own result per executed item, one post with n results.",
+    "level_note": _TB + " The bound of the free-running part is a theorem about the model: C09_two_workers_prefix - on two workers, for every schedule with the context alive, every item before an executed item y, other than a skipped item m < y, was processed to the end and succeeded, so no executed item lies above both a skipped item and the failing item (zero; the check allows one). Which interleavings the free runs reach is up to the Go scheduler.",
     "explanation": "unstarted-items invariant for all continuations; stop position sweep",
     "assumptions": [],
 }
